@@ -30,6 +30,10 @@ def run(prog, rep):
     rep.part(joint, prog, rep)
     rep.part(compute, prog, rep)
     rep.part(visible, prog, rep)
+    rep.part(_nonempty, prog, rep)
+    rep.expect_min("C02.total", 2)
+    rep.explanation += (" C02.total: neither the selection nor the assembly of the contour reads an element of a sequence that can be empty (no cell fits "
+                        "below 1 - alpha: the property then asks for the empty region).")
     rep.part(select, prog, rep)
     rep.part(grid, prog, rep)
     rep.part(ctor_stores, prog, rep, "C02.ctor", HDC, ["model", "alpha", "limits", "deltas"])
@@ -311,6 +315,21 @@ def compute(prog, rep):
     ok = bool(nan) and cfg.dominates(cfg.node(cfg.enclosing(nan[0])[-1][0]), cfg.node(sel[0]))
     rep.check(ok, "C02.nan", f"{q}:nan", fn.where(nan[0]) if nan else fn.where(), "NaN density raises ValueError before the selection",
               "a NaN cell density must raise ValueError before the cumulative selection")
+
+
+def _nonempty(prog, rep):
+    from .emptiness import unguarded_reads
+    for name in ("cumsum_biggest_until", "_compute"):
+        q = f"{HDC}.{name}"
+        fn = prog.func(q)
+        b = builder(prog, fn, inline=False)
+        pcs = path_conditions(prog, fn, b)
+        bad = unguarded_reads(fn, b, pcs)
+        if not bad:
+            rep.ok("C02.total", f"{q}:element-reads", fn.where(), "no element of a possibly empty sequence is read")
+        for st, src, why in bad:
+            rep.fail("C02.total", f"{q}:{src}", fn.where(st), f"{src} is read although {why}: when the densest cell alone holds more than 1 - alpha no cell is "
+                     "selected and the constructor ends in an IndexError (not caught by the RuntimeWarning handler) instead of the empty region")
 
 
 def _own_calls(st):
